@@ -34,6 +34,10 @@ HEADER = ('From Coq Require Import List Bool Arith ZArith.\n'
           '  (list_eqb (pair_eqb (pair_eqb (pair_eqb (pair_eqb Bool.eqb Nat.eqb) (list_eqb Nat.eqb)) Z.eqb) (list_eqb Z.eqb))).')
 
 
+DUP_NAMES = []
+EPI_NAMES = set()      # names of the epigraph Variables of all atoms created in this process (class counters: unique over the session)
+
+
 def reset_globals():
     """the model starts from (0,0,0): bring the implementation's allocators to a known state and remember the offsets"""
     from sageopt.coniclifts.base import ScalarVariable, Variable
@@ -59,9 +63,25 @@ def run_history(rng, length):
         elif r < 0.25 and created and created[-1][0].generation == Variable._VARIABLE_GENERATION:
             # a nonlinear atom allocates a 0-d epigraph Variable with a class-counter name
             v0 = created[-1][0]
-            a = clabs(v0.ravel()[:1])
-            atom = list(a[0].atoms_to_coeffs)[0]
+            arg = v0.ravel()[:1]
+            which = rng.choice(['abs', 'abs', 'pos', 'norm', 'exp', 'relent'])
+            if which == 'abs':
+                a = clabs(arg)
+            elif which == 'pos':
+                from sageopt.coniclifts.operators.pos import pos as clpos
+                a = clpos(arg)
+            elif which == 'norm':
+                a = cl.vector2norm(cl.hstack((arg, 1.0 + arg))).ravel()
+            elif which == 'exp':
+                a = cl.weighted_sum_exp(np.array([1.0]), arg).ravel()
+            else:
+                a = cl.relent(arg + 1.0, arg + 2.0).ravel()
+            atom = [t for t in a[0].atoms_to_coeffs if hasattr(t, 'epigraph_variable')][0]
             ev = atom.epigraph_variable.parent
+            seen_before = ev.name in EPI_NAMES
+            EPI_NAMES.add(ev.name)
+            if ev.name in names or seen_before:
+                DUP_NAMES.append('two distinct nonlinear atoms (the second a %s atom) have epigraph Variables with the same name %s' % (which, ev.name))
             names.append(ev.name)
             ops.append(vlib.Some(([], False, vlib.Some(Nat(len(names) - 1)))))
             created.append((ev, (True, len(names) - 1)))
@@ -86,6 +106,23 @@ def run_history(rng, length):
                 created.append((v, (True, len(names) - 1) if named else (False, Variable._UNNAMED_VARIABLE_CALL_COUNT - 1 - un0)))
             except Exception:
                 pass
+        if created and rng.random() < 0.15:
+            # a pickle round trip of a Variable of the CURRENT generation (alone, a slice with it, or inside a Problem) is not an allocation:
+            # the allocator state the model predicts below is the state without it
+            import pickle
+            cur = [v for v, _ in created if v.generation == Variable._VARIABLE_GENERATION and v.size > 0 and v.is_proper()]
+            if cur:
+                v0 = rng.choice(cur)
+                meta['pickle'] = meta.get('pickle', 0) + 1
+                with warnings.catch_warnings():
+                    warnings.simplefilter('ignore')
+                    kind = rng.choice(['var', 'pair', 'problem'])
+                    if kind == 'var':
+                        pickle.loads(pickle.dumps(v0))
+                    elif kind == 'pair':
+                        pickle.loads(pickle.dumps((v0, v0.ravel()[:1])))
+                    else:
+                        pickle.loads(pickle.dumps(cl.Problem(cl.MIN, v0.ravel()[0], [v0 >= 1])))
         obs_g = (int(ScalarVariable._SCALAR_VARIABLE_COUNTER), int(Variable._VARIABLE_GENERATION - gen0),
                  Nat(int(Variable._UNNAMED_VARIABLE_CALL_COUNT - un0)))
         obs_v = []
@@ -368,10 +405,14 @@ def run(ctx):
     for _ in range(ctx.n(80, 800)):
         hc, meta, created = run_history(ctx.rng, ctx.rng.randint(3, 10))
         why = oracle_unique(created)
+        if not why and DUP_NAMES:
+            why = DUP_NAMES[0]
+        del DUP_NAMES[:]
         if why:
             ctx.problem('oracle', 'property fails on the implementation: ' + why, inputs={'history': str(hc[-1][0])}, failing_input_found=True)
             break
         ctx.count('history.sym', meta['sym'])
+        ctx.count('history.pickle_steps', min(meta.get('pickle', 0), 3))
         ctx.count('history.clear', meta['clear'])
         if meta['sym'] or meta['clear']:
             ctx.nontrivial.add(vlib.sha(str(hc[-1][0])))
